@@ -11,35 +11,43 @@ Import ListNotations.
     NaN and infinity special cases, dict -> Row unless map-like, ...) and the type table maps every primitive
     type back to the declared one *)
 Lemma gen_facts_ok :
-  facts_ok gen_infer_chain gen_lit_chain gen_litfn_chain gen_tovalue_chain gen_primitive_mapping = true.
+  facts_ok gen_infer_chain gen_lit_chain gen_litfn_chain gen_tovalue_chain gen_primitive_mapping
+           gen_cells_float_via_lit gen_sample_first_non_none = true.
 Proof. vm_compute. reflexivity. Qed.
 
 (** the property at full strength: all strings, all listed values, every environment that behaves as assumed *)
 Definition C09_full : Prop :=
-  full gen_infer_chain gen_lit_chain gen_litfn_chain gen_tovalue_chain gen_primitive_mapping.
+  full gen_infer_chain gen_lit_chain gen_litfn_chain gen_tovalue_chain gen_primitive_mapping
+       gen_cells_float_via_lit gen_sample_first_non_none.
 
 (** what is proved: the same with the boolean domain predicates [nul_free] (strings), [wf] (statement
-    templates), [supported]/[uniform]/[fits] (typed cells) and [untyped_ok] (cells without a CAST) *)
+    templates), [col_member] = [supp] && [fits] and [uniform] (typed columns), [supp] (columns without a CAST)
+    and [untyped_ok] (select(lit(v)): not an infinity) *)
 Theorem C09_partial :
-  partial gen_infer_chain gen_lit_chain gen_litfn_chain gen_tovalue_chain gen_primitive_mapping.
-Proof. exact (partial_holds _ _ _ _ _ gen_facts_ok). Qed.
+  partial gen_infer_chain gen_lit_chain gen_litfn_chain gen_tovalue_chain gen_primitive_mapping
+          gen_cells_float_via_lit gen_sample_first_non_none.
+Proof. exact (partial_holds _ _ _ _ _ _ _ gen_facts_ok). Qed.
 Print Assumptions C09_partial.
 
 (** the environment hypotheses are satisfiable *)
 Example C09_env_satisfiable : env_ok ref_eleaf ref_cleaf ref_pleaf.
 Proof. exact ref_env_ok. Qed.
 
-(** a column of nested values with adversarial content is in the domain and round-trips in the reference
-    environment (type inferred from its first row) *)
+(** a column of nested values with adversarial content (NaN and nested infinities included) is in the domain and
+    round-trips in the reference environment (type inferred from its first value that is not None) *)
+Local Notation C := (col_pipeline ref_eleaf ref_cleaf ref_pleaf (ref_round32 [])
+                                  (cell_lit gen_lit_chain gen_litfn_chain gen_cells_float_via_lit) gen_tovalue_chain).
+Local Notation S := (col_pipeline ref_eleaf ref_cleaf ref_pleaf (ref_round32 [])
+                                  (lit_top gen_lit_chain gen_litfn_chain) gen_tovalue_chain).
+Local Notation want vs := (map (fun v => Some (expected v)) vs).
+
 Example C09_domain_nonempty :
-  supported sample_value = true /\ uniform sample_value = true /\ nanfree sample_value = true /\
+  supp sample_value = true /\ uniform sample_value = true /\
   exists t, infer gen_infer_chain sample_value = Some t /\
-    forallb (col_member t) [sample_value; PNone; sample_value] = true /\
-    col_pipeline ref_eleaf ref_cleaf ref_pleaf (ref_round32 []) gen_lit_chain gen_litfn_chain gen_tovalue_chain
-                 (Some t) [sample_value; PNone; sample_value]
-    = map (fun v => Some (expected v)) [sample_value; PNone; sample_value].
+    forallb (col_member t) [PNone; sample_value; PNone; sample_value] = true /\
+    C (Some t) [PNone; sample_value; PNone; sample_value] = want [PNone; sample_value; PNone; sample_value].
 Proof.
-  split; [vm_compute; reflexivity|]. split; [vm_compute; reflexivity|]. split; [vm_compute; reflexivity|].
+  split; [vm_compute; reflexivity|]. split; [vm_compute; reflexivity|].
   eexists. split; [vm_compute; reflexivity|]. split; vm_compute; reflexivity.
 Qed.
 
@@ -47,41 +55,19 @@ Example C09_template_nonempty :
   wf [Raw [83; 69; 76; 69; 67; 84; 32]%N; Str [39; 59; 45; 45; 92; 34]%N; Raw [32; 65; 83; 32]%N; Idn [97; 34; 98]%N] = true.
 Proof. vm_compute. reflexivity. Qed.
 
-Local Notation P := (col_pipeline ref_eleaf ref_cleaf ref_pleaf (ref_round32 [(4591870180066957722, (4591870180174331904, false))]%Z)
-                                  gen_lit_chain gen_litfn_chain gen_tovalue_chain).
-Local Notation want vs := (map (fun v => Some (expected v)) vs).
-
-(** refutations of the full statement on the faithful model (each replayed on the implementation by the check) *)
+(** refutations of the full statement on the faithful model (each replayed on the implementation by the check).
+    The witnesses of the defects repaired in /repo (NaN literal as REAL, infinities outside lit(), nested
+    Decimal, first-row-only sampling) no longer refute it; they stay in the check's corpus. *)
 
 (** a string containing U+0000 cannot be written as a literal *)
 Theorem C09_refuted_nul : exists s rest, starts_with QS rest = false /\ lex_string (render_string s ++ rest) <> Some (s, rest).
 Proof. exists [97; 0; 98]%N, []. split; [reflexivity|]. vm_compute. discriminate. Qed.
 
 (** lit(float('inf')) in select(): the literal is the string 'inf' and nothing casts it back *)
-Theorem C09_refuted_lit_inf : exists v, listed v = true /\ P None [v] <> want [v].
+Theorem C09_refuted_lit_inf : exists v, listed v = true /\ S None [v] <> want [v].
 Proof. exists (PFloat (FInf false)). split; [reflexivity|]. vm_compute. discriminate. Qed.
 
-(** an infinity inside a list/struct is written as the bare word inf: the statement fails *)
-Theorem C09_refuted_nested_inf : exists v, listed v = true /\ P (infer gen_infer_chain v) [v] <> want [v].
-Proof. exists (PList [PFloat (FInf false)]). split; [reflexivity|]. vm_compute. discriminate. Qed.
-
-(** a struct field whose first-row value is None is dropped from the column type, and with it from the data *)
-Theorem C09_refuted_struct_none_field : exists v, listed v = true /\ P (infer gen_infer_chain v) [v] <> want [v].
+(** a struct field whose sampled value is None is dropped from the column type, and with it from the data *)
+Theorem C09_refuted_struct_none_field : exists v, listed v = true /\ C (infer gen_infer_chain v) [v] <> want [v].
 Proof. exists (PRow [([97]%N, PNone); ([98]%N, PInt 1)]). split; [reflexivity|]. vm_compute. discriminate. Qed.
-
-(** a float inside a list without a CAST (lit() in select(), or a column whose first value is None) comes back as
-    decimal.Decimal *)
-Theorem C09_refuted_nested_decimal : exists v, listed v = true /\ P None [v] <> want [v].
-Proof. exists (PList [PFloat (FFin 4591870180066957722 false)]). split; [reflexivity|]. vm_compute. discriminate. Qed.
-
-(** a column whose first value is None gets no CAST: a later infinity comes back as the string 'inf' *)
-Theorem C09_refuted_first_none : exists vs, forallb listed vs = true /\
-  P (match vs with v0 :: _ => infer gen_infer_chain v0 | [] => None end) vs <> want vs.
-Proof. exists [PNone; PFloat (FInf true)]. split; [reflexivity|]. vm_compute. discriminate. Qed.
-
-(** the NaN literal is CAST('NaN' AS REAL): a double column that contains a NaN is unified to REAL, and 0.1 comes
-    back as 0.10000000149011612 (the float32 nearest to it) *)
-Theorem C09_refuted_nan_narrows : exists vs, forallb (fun v => listed v && fits v TDouble) vs = true /\
-  P (Some TDouble) vs <> want vs.
-Proof. exists [PFloat FNaN; PFloat (FFin 4591870180066957722 false)]. split; [reflexivity|]. vm_compute. discriminate. Qed.
-Print Assumptions C09_refuted_nan_narrows.
+Print Assumptions C09_refuted_struct_none_field.
